@@ -45,17 +45,18 @@ const (
 	kTxt                  // types.TokenTransaction
 	kCut                  // types.ContractUpgradeTx
 	kMst                  // types.MultiSignAccountTx
+	kUtx                  // types.UTXOTransaction (account->UTXO funding, UTXO->UTXO spend)
 	nKinds
 )
 
 func (k txKind) String() string {
-	return [...]string{"tx", "create", "txt", "cut", "mst"}[k]
+	return [...]string{"tx", "create", "txt", "cut", "mst", "utx"}[k]
 }
 
 // wireNames are the registered type names; the 7 prefix bytes on the wire are
 // derived from them by the codec. The rig learns the prefixes from encodings
 // of real objects (see learnPrefixes), not from the codec's tables.
-var wireName = [...]string{"tx", "tx", "txt", "cut", "mst"}
+var wireName = [...]string{"tx", "tx", "txt", "cut", "mst", "utx"}
 
 type sigStatus int
 
@@ -217,6 +218,8 @@ func (w *wireTx) signedFields() []*item {
 		return w.body.kids[:7]
 	case kCut:
 		return []*item{w.body.kids[0]}
+	case kUtx:
+		return w.body.kids[:7] // inputs, outputs, token, tx key, additional keys, fee, extra
 	}
 	return nil
 }
@@ -230,6 +233,8 @@ func (w *wireTx) sigItems() []*item {
 		return []*item{w.body.kids[7]}
 	case kCut:
 		return w.body.kids[1].kids
+	case kUtx:
+		return []*item{w.body.kids[7]}
 	}
 	return nil
 }
@@ -268,6 +273,12 @@ func (w *wireTx) wellFormed() bool {
 			}
 		}
 		return true
+	case kUtx:
+		if len(b.kids) != 9 {
+			return false
+		}
+		_, ok := tripleOf(b.kids[7])
+		return ok
 	case kMst:
 		if len(b.kids) != 2 || !b.kids[0].list || !b.kids[1].list {
 			return false
